@@ -27,6 +27,9 @@ GLOBAL_ASSUMPTIONS = [
 ]
 
 
+_FALS_CACHE = {}
+
+
 def load_json(path, default):
     if os.path.exists(path):
         with open(path) as f:
@@ -34,7 +37,7 @@ def load_json(path, default):
     return default
 
 
-def run_falsifier(pid, ob, fn_result, seed):
+def run_falsifier(pid, ob, fn_result, seed, budget=None):
     """Ask the concrete falsifier (real code, /venv python) for a failing input for this obligation."""
     script = os.path.join(VERIF, 'harness', 'falsify.py')
     if not os.path.exists(script):
@@ -43,13 +46,20 @@ def run_falsifier(pid, ob, fn_result, seed):
     req = {'property': pid, 'obligation': ob['name'], 'function': fn_result['key'],
            'model': ob.get('model'), 'text': ob.get('text'), 'seed': seed,
            'contract': export_contract(fn_result['key'])}
+    if budget:
+        req['budget'] = budget
+    ck = (fn_result['key'], budget)
+    if ck in _FALS_CACHE:
+        return _FALS_CACHE[ck]
+
     try:
         p = subprocess.run([VENV_PY, script], input=json.dumps(req), capture_output=True, text=True,
-                           timeout=600, cwd=VERIF, env={**os.environ, 'PYTHONPATH': '/repo'})
+                           timeout=600, cwd=VERIF, env={**os.environ, 'PYTHONPATH': os.environ.get('PYVC_REPO', '/repo')})
         line = [ln for ln in p.stdout.splitlines() if ln.startswith('{')]
         if not line:
-            return {'reproduced': None, 'error': (p.stderr or p.stdout)[-2000:]}
-        return json.loads(line[-1])
+            return {'reproduced': None, 'detail': (p.stderr or p.stdout)[-2000:]}
+        _FALS_CACHE[ck] = json.loads(line[-1])
+        return _FALS_CACHE[ck]
     except subprocess.TimeoutExpired:
         return {'reproduced': None, 'error': 'falsifier timeout'}
 
@@ -66,12 +76,39 @@ def finish(pid, tier, results, wall, verbose=True):
     by_backend, solver_s = {}, 0.0
     covers_bad = []
     generated = set()
+    bounded_recs = []
     for r in results:
         funcs.append({'name': r['key'], 'file': r.get('file'), 'lines': r.get('lines'),
                       'sha256': r.get('sha256'), 'status': r['status'], 'wall_s': r.get('wall_s')})
         if r['status'] == 'engine-error':
             errors.append((r['key'], r['error']))
             continue
+        if r.get('bounded_clauses'):
+            # bounded stand-in: run-time contract check of the real function on generated inputs
+            ob = {'name': r['key'] + '/bounded', 'text': 'bounded run-time contract check', 'backend': 'falsifier',
+                  'status': 'bounded', 'reason': ''}
+            fr = run_falsifier(pid, ob, r, seed, budget=int(os.environ.get('PYVC_BOUNDED_BUDGET', '300' if tier == 'quick' else '3000')))
+            rec = {'function': r['key'], 'clauses': r['bounded_clauses'], 'cases': (fr or {}).get('admissible', 0),
+                   'bound': (fr or {}).get('bound', 'seeded generator, see harness/gens.py'), 'result': 'held'}
+            if fr and fr.get('reproduced'):
+                rec['result'] = 'violated'
+                os.makedirs(os.path.join(VERIF, 'replays', pid), exist_ok=True)
+                rpath = os.path.join('replays', pid, r['key'].replace('/', '.').replace(':', '_') + '.bounded.json')
+                with open(os.path.join(VERIF, rpath), 'w') as f:
+                    json.dump({'property': pid, 'obligation': r['key'] + '/' + fr.get('clause', '?'),
+                               'function': r['key'], 'source_sha256': r.get('sha256'),
+                               'falsifier': fr, 'reproduced': True}, f, indent=1)
+                kf = next((k for k in known if k.get('status') == 'known'
+                           and k['obligation'] == r['key'] + '/' + fr.get('clause', '?')), None)
+                if kf is not None:
+                    known_hits.append((kf, ob))
+                else:
+                    violations.append(({'name': r['key'] + '/' + fr.get('clause', '?'), 'text': fr.get('detail', '')[:300]}, rpath, ''))
+            elif not fr or fr.get('reproduced') is None:
+                undecided.append((r['key'] + '/bounded', 'bounded check could not run: ' + str((fr or {}).get('detail'))[:300]))
+            bounded_recs.append(rec)
+            if r['status'] == 'bounded-only':
+                continue
         if r['status'] != 'ok':
             # outside the verifier's reach: the bounded falsifier (real code, run-time contract)
             # may still refute; it can never confirm.
@@ -168,18 +205,13 @@ def finish(pid, tier, results, wall, verbose=True):
             'covers_unsat': covers_bad,
             'undecided': [list(u) for u in undecided],
             'known_findings_reproduced': [k['id'] for k, _ in known_hits],
+            'bounded': bounded_recs,
             'samples': samples or [{'note': 'no obligations generated'}],
             'obligation_list': [{'name': o['name'], 'status': o['status'], 'backend': o['backend'],
                                  'time_s': o['time_s'], 'float_mode': o.get('float_mode')} for o in obligations],
         },
         'assumptions': sorted(assumptions),
     }
-    extra = os.path.join(VERIF, 'evidence', f'{pid}.extra.json')
-    if os.path.exists(extra):
-        try:
-            ev['coverage']['bounded'] = json.load(open(extra))
-        except Exception:
-            pass
     os.makedirs(os.path.join(VERIF, 'evidence'), exist_ok=True)
     with open(os.path.join(VERIF, 'evidence', f'{pid}.json'), 'w') as f:
         json.dump(ev, f, indent=1)
